@@ -8,7 +8,34 @@ use crate::runner::{gen_header, run, RunResult, Source};
 use crate::world::Violation;
 use serde_json::{json, Value};
 
-fn outcome_of(prop: &str, r: RunResult) -> CaseOutcome {
+/// C16: "a wrong or out-of-range record found at mount never makes an operation fail or panic". A panic is
+/// blamed on the record only by experiment: the same operations on the same device with truthful records
+/// must run without it. (Only reached when a call has panicked.)
+fn blame_record_for_panic(prop: &str, r: &mut RunResult) {
+    if prop != "C16" {
+        return;
+    }
+    let panicked: Option<Violation> = r.viols.iter().find(|v| v.oracle == "panic").cloned();
+    let v = match panicked {
+        Some(v) => v,
+        None => return,
+    };
+    if !r.scenario.dev.vols.iter().any(|x| x.fat32 && x.fsinfo != crate::mkfs::FsInfoKind::Correct) {
+        return;
+    }
+    let mut truthful = r.scenario.clone();
+    for x in truthful.dev.vols.iter_mut() {
+        x.fsinfo = crate::mkfs::FsInfoKind::Correct;
+    }
+    let ops = truthful.ops.clone();
+    let again = run(&truthful, Source::Replay(&ops), false, true);
+    if !again.viols.iter().any(|x| x.oracle == "panic") {
+        r.viols.push(Violation { prop: "C16", oracle: "operation-panics-on-wrong-fsinfo".into(), disc: v.disc.split(':').next().unwrap_or("").to_string(), detail: format!("{} (the same operations on the same device with truthful FSInfo records do not panic)", v.detail), op_idx: v.op_idx });
+    }
+}
+
+fn outcome_of(prop: &str, mut r: RunResult) -> CaseOutcome {
+    blame_record_for_panic(prop, &mut r);
     let p = &r.probes.m;
     let g = |k: &str| p.get(k).copied().unwrap_or(0);
     let nontrivial = match prop {
